@@ -1,5 +1,6 @@
 import Ark.Model.Msm
 import Ark.Model.AffGroup
+import Ark.Model.TeGroup
 import Ark.Model.Proto
 /-
   Driver dispatch for C05 (multi-scalar multiplication).
@@ -17,13 +18,31 @@ import Ark.Model.Proto
   ops: comma list of indices `i` = `add(bases[i], scalars[i])`, `finalize` is implicit at the end.
   result: `x:y` | `inf` | `err:<n>` | `panic`;   digits: comma list of signed hex digits | `panic`.
 
-  model output = what `Ark.Msm` computes (plus ` @tag`); verdict = the property applied to the implementation's
-  output: the result is Σ kᵢ·Pᵢ computed with the reference `AffPt.smul`, term by term.
+  The same ops on two more kinds of groups; only the group parameters in front of `<r> <N> <nc>` and the element
+  syntax differ, the handlers are the same generic functions (`runGroup` over a `GIo G`):
+    C05 te.<op> <p> <a> <d> <r> <N> <nc> …   twisted-Edwards curve a·x² + y² = 1 + d·x²·y² over F_p, spec group
+                                             `Ark.TePt p a d` (`Ark.Model.TeGroup`), points `x:y`, identity `0:1`
+    C05 gt.<op> <r> <N> <nc> …               a cyclic group of order r written by discrete logarithms w.r.t. a fixed
+                                             generator (`PairingOutput`: the harness prints `gt^e` as `e`, from a table
+                                             built by repeated addition of `gt`): spec group = `Fp r` with `+`,
+                                             `k·e = k*e mod r`; result `notfound` = not one of the tabulated powers
+
+  model output = what `Ark.Msm` computes at `G` (plus ` @tag`); verdict = the property applied to the implementation's
+  output: the result is Σ kᵢ·Pᵢ over the common prefix computed with the reference scalar multiplication of the spec
+  group (`AffPt.smul` / `TePt.smul` / multiplication mod r), term by term; the checked `msm` with unequal lengths must
+  return `err:<min len>`.
 -/
 namespace Ark.DrvC05
 open Ark Ark.Proto Ark.Msm
 
 def vs (impl spec : String) : String := if impl == spec then "ok" else "bad:want=" ++ spec
+
+/-- what the driver needs from a specification-level group besides `+ - 0` and decidable equality:
+    printing / parsing of elements and the reference scalar multiplication used by the verdicts -/
+structure GIo (G : Type) where
+  sPt : G → String
+  pPt : String → Option G
+  smul : Nat → G → G
 
 section Curve
 variable {p : Nat} {E : SWParams p}
@@ -39,72 +58,115 @@ def pPt (s : String) : Option (AffPt p E) :=
     | [x, y] => do let x ← parseHex? x; let y ← parseHex? y; some ⟨some (Fp.ofNat p x, Fp.ofNat p y)⟩
     | _ => none
 
-def pPts (s : String) : Option (List (AffPt p E)) :=
-  if s == "_" then some [] else mapM? pPt (s.splitOn ",")
+/-- short-Weierstrass spec group `AffPt p E` -/
+def swIo (p : Nat) (E : SWParams p) : GIo (AffPt p E) := ⟨sPt, pPt, AffPt.smul⟩
 
-def sOut : Outcome (AffPt p E) → String
-  | .ok P => sPt P
+end Curve
+
+section TE
+variable {p a d : Nat}
+
+def sTe (P : TePt p a d) : String := hex P.x.val ++ ":" ++ hex P.y.val
+
+def pTe (s : String) : Option (TePt p a d) :=
+  match s.splitOn ":" with
+  | [x, y] => do let x ← parseHex? x; let y ← parseHex? y; some ⟨Fp.ofNat p x, Fp.ofNat p y⟩
+  | _ => none
+
+/-- twisted-Edwards spec group `TePt p a d` (identity `0:1`) -/
+def teIo (p a d : Nat) : GIo (TePt p a d) := ⟨sTe, pTe, TePt.smul⟩
+
+end TE
+
+/-- the additive group of `Z/r` (`Fp r` with `+`): a cyclic group of order `r` written by discrete logarithms
+    w.r.t. a fixed generator — `PairingOutput` elements `gt^e` are exchanged as their exponent `e` -/
+def zrIo (r : Nat) : GIo (Fp r) :=
+  ⟨fun e => hex e.val, fun s => (parseHex? s).map (Fp.ofNat r), fun k e => Fp.ofNat r (k * e.val)⟩
+
+section Group
+variable {G : Type} [Add G] [Neg G] [Sub G] [Zero G] [DecidableEq G] [Inhabited G] (io : GIo G)
+
+def pPts (s : String) : Option (List G) :=
+  if s == "_" then some [] else mapM? io.pPt (s.splitOn ",")
+
+def sOut : Outcome G → String
+  | .ok P => io.sPt P
   | .panic => "panic"
 
 /-- the specification: Σ kᵢ·Pᵢ over the common prefix, by the reference scalar multiplication -/
-def specSum (ps : List (AffPt p E)) (ks : List Nat) : AffPt p E :=
-  (ps.zip ks).foldl (fun acc pk => AffPt.affAdd acc (AffPt.smul pk.2 pk.1)) 0
+def specSum (ps : List G) (ks : List Nat) : G :=
+  (ps.zip ks).foldl (fun acc pk => acc + io.smul pk.2 pk.1) 0
 
 def cyc {α} [Inhabited α] (pat : List α) (n : Nat) : List α :=
   if pat.isEmpty then [] else (List.range n).map (fun i => pat.getD (i % pat.length) default)
 
 /-- verdict for the big-integer entry points: inside the scalar domain `k < 2^numBits` the result must be
     Σ kᵢ·Pᵢ; above it the code reads exactly the bits below `c·⌈numBits/c⌉` — recorded as a note -/
-def judgeBig (cfg : Cfg) (impl : String) (bases : List (AffPt p E)) (ks : List Nat) : String :=
+def judgeBig (cfg : Cfg) (impl : String) (bases : List G) (ks : List Nat) : String :=
   let n := min bases.length ks.length
   let nb := cfg.numBits
-  let want := sPt (specSum bases ks)
+  let want := io.sPt (specSum io bases ks)
   if impl == want then "ok"
   else if (ks.take n).all (· < 2 ^ nb) then "bad:want=" ++ want
   else
     let c := windowSize n
     let m := 2 ^ (c * divCeil nb c)
-    let w2 := sPt (specSum bases (ks.map (· % m)))
+    let w2 := io.sPt (specSum io bases (ks.map (· % m)))
     if impl == w2 then "note:scalar>=2^MODULUS_BIT_SIZE,bits>=c*ceil(numBits/c)-ignored"
     else "bad:want=" ++ want ++ ",or=" ++ w2
 
 def runMsm (cfg : Cfg) (op : String) (bs ss impl : String) : Option (String × String) := do
-  let bases : List (AffPt p E) ← pPts bs
+  let bases : List G ← pPts io bs
   let ks ← parseList? ss
   let n := min bases.length ks.length
   let tag := " @c" ++ toString (windowSize n)
   let limbs := ks.map (toLimbs cfg.limbs)
+  let sPt := io.sPt
   match op with
   | "msm" =>
     let m := match msm cfg bases ks with
       | .ok (.ok g) => sPt g
       | .ok (.error e) => "err:" ++ hex e
       | .panic => "panic"
-    let v := if bases.length = ks.length then vs impl (sPt (specSum bases ks)) else vs impl ("err:" ++ hex n)
+    let v := if bases.length = ks.length then vs impl (sPt (specSum io bases ks)) else vs impl ("err:" ++ hex n)
     some (m ++ (if bases.length = ks.length then tag else " @err"), v)
-  | "unchecked" => some (sOut (msmUnchecked cfg bases ks) ++ tag, vs impl (sPt (specSum bases ks)))
-  | "bigint" => some (sOut (msmBigint cfg bases limbs) ++ tag, judgeBig cfg impl bases ks)
-  | "wnaf" => some (sOut (msmBigintWnaf cfg.numBits bases limbs) ++ tag, judgeBig cfg impl bases ks)
-  | "plain" => some (sOut (msmBigintPlain cfg.numBits cfg.one bases limbs) ++ tag, judgeBig cfg impl bases ks)
+  | "unchecked" => some (sOut io (msmUnchecked cfg bases ks) ++ tag, vs impl (sPt (specSum io bases ks)))
+  | "bigint" => some (sOut io (msmBigint cfg bases limbs) ++ tag, judgeBig io cfg impl bases ks)
+  | "wnaf" => some (sOut io (msmBigintWnaf cfg.numBits bases limbs) ++ tag, judgeBig io cfg impl bases ks)
+  | "plain" => some (sOut io (msmBigintPlain cfg.numBits cfg.one bases limbs) ++ tag, judgeBig io cfg impl bases ks)
   | "chunks" =>
-    let m := sOut (msmChunks cfg bases ks)
-    if bases.length = ks.length then some (m ++ tag, vs impl (sPt (specSum bases ks)))
+    let m := sOut io (msmChunks cfg bases ks)
+    if bases.length = ks.length then some (m ++ tag, vs impl (sPt (specSum io bases ks)))
     else if ks.length < bases.length then
-      let w := sPt (specSum (bases.drop (bases.length - ks.length)) ks)
+      let w := sPt (specSum io (bases.drop (bases.length - ks.length)) ks)
       some (m ++ " @tail-aligned", if impl == w then "note:msm_chunks-skips-leading-bases" else "bad:want=" ++ w)
     else some (m ++ " @assert", if impl == "panic" then "note:msm_chunks-asserts-scalars<=bases" else "bad:want=panic")
   | _ => none
 
+def runCyc (cfg : Cfg) (nbS nsS bs ss impl : String) : Option (String × String) := do
+  let nb ← parseHex? nbS
+  let ns ← parseHex? nsS
+  let bpat : List G ← pPts io bs
+  let spat ← parseList? ss
+  let bases := cyc bpat nb
+  let ks := cyc spat ns
+  let m := sOut io (msmChunks cfg bases ks)
+  if ns > nb then some (m ++ " @assert", if impl == "panic" then "note:msm_chunks-asserts-scalars<=bases" else "bad:want=panic")
+  else
+    let w := io.sPt (specSum io (bases.drop (nb - ns)) ks)
+    some (m ++ " @steps" ++ toString (divCeil ns (2 ^ 20)),
+          if impl == w then (if nb = ns then "ok" else "note:msm_chunks-skips-leading-bases") else "bad:want=" ++ w)
+
 def runAcc (cfg : Cfg) (op : String) (bufS bs ss os impl : String) : Option (String × String) := do
-  let bases : List (AffPt p E) ← pPts bs
+  let bases : List G ← pPts io bs
   let ks ← parseList? ss
   let ops ← parseList? os
   let buf ← parseHex? bufS
   let adds ← mapM? (fun i => do let b ← bases[i]?; let k ← ks[i]?; some (b, k)) ops
-  let want := sPt (specSum (adds.map (·.1)) (adds.map (·.2)))
+  let want := io.sPt (specSum io (adds.map (·.1)) (adds.map (·.2)))
   match op with
   | "chunked" | "chunkedws" =>
-    let m := sOut (Chunked.run cfg buf (adds.map (fun a => (a.1, toLimbs cfg.limbs a.2))))
+    let m := sOut io (Chunked.run cfg buf (adds.map (fun a => (a.1, toLimbs cfg.limbs a.2))))
     let v := if impl == want then "ok"
       else if adds.all (fun a => a.2 < 2 ^ cfg.numBits) then "bad:want=" ++ want
       else "note:scalar>=2^MODULUS_BIT_SIZE"
@@ -113,9 +175,9 @@ def runAcc (cfg : Cfg) (op : String) (bufS bs ss os impl : String) : Option (Str
         ++ (if adds.length % buf = 0 then "" else "+tail")
     some (m ++ tag, v)
   | "hashmap" =>
-    let m := sOut (HashMapAcc.run cfg buf adds)
+    let m := sOut io (HashMapAcc.run cfg buf adds)
     let v := if impl == want then "ok"
-      else if adds.all (fun a => a.2 < cfg.r ∧ AffPt.smul cfg.r a.1 = 0) then "bad:want=" ++ want
+      else if adds.all (fun a => a.2 < cfg.r ∧ io.smul cfg.r a.1 = 0) then "bad:want=" ++ want
       else "note:base-outside-the-order-r-subgroup"
     let distinct := (adds.map (·.1)).eraseDups.length
     let tag := (if distinct < adds.length then " @merge" else " @nomerge")
@@ -123,7 +185,17 @@ def runAcc (cfg : Cfg) (op : String) (bufS bs ss os impl : String) : Option (Str
     some (m ++ tag, v)
   | _ => none
 
-end Curve
+/-- the group ops after the header (`rest` = the remaining arguments) -/
+def runGroup (cfg : Cfg) (op : String) (rest : List String) (impl : String) : Option (String × String) :=
+  match op, rest with
+  | "chunkscyc", [nbS, nsS, bs, ss] => runCyc io cfg nbS nsS bs ss impl
+  | "chunked", [buf, bs, ss, os] => runAcc io cfg op buf bs ss os impl
+  | "chunkedws", [buf, bs, ss, os] => runAcc io cfg op buf bs ss os impl
+  | "hashmap", [buf, bs, ss, os] => runAcc io cfg op buf bs ss os impl
+  | _, [bs, ss] => runMsm io cfg op bs ss impl
+  | _, _ => none
+
+end Group
 
 def intPow (b : Int) : Nat → Int
   | 0 => 1
@@ -172,6 +244,26 @@ def runDigits (nS aS wS nbS impl : String) : Option (String × String) := do
     some (m ++ tag, v)
 
 def run (op : String) (args : List String) (impl : String) : Option (String × String) :=
+  if op.startsWith "gt." then
+    match args with
+    | rS :: nS :: ncS :: rest => do
+      let r ← parseHex? rS
+      let n ← parseHex? nS
+      if r < 2 ∨ n = 0 then none
+      runGroup (zrIo r) ⟨r, n, ncS == "1"⟩ (op.drop 3).toString rest impl
+    | _ => none
+  else if op.startsWith "te." then
+    match args with
+    | pS :: aS :: dS :: rS :: nS :: ncS :: rest => do
+      let p ← parseHex? pS
+      let a ← parseHex? aS
+      let d ← parseHex? dS
+      let r ← parseHex? rS
+      let n ← parseHex? nS
+      if p < 2 ∨ r < 2 ∨ n = 0 then none
+      runGroup (teIo p a d) ⟨r, n, ncS == "1"⟩ (op.drop 3).toString rest impl
+    | _ => none
+  else
   match op, args with
   | "digits", [n, a, w, nb] => runDigits n a w nb impl
   | _, pS :: aS :: bS :: rS :: nS :: ncS :: rest => do
@@ -181,27 +273,7 @@ def run (op : String) (args : List String) (impl : String) : Option (String × S
     let r ← parseHex? rS
     let n ← parseHex? nS
     if p < 2 ∨ r < 2 ∨ n = 0 then none
-    let cfg : Cfg := ⟨r, n, ncS == "1"⟩
-    let E : SWParams p := ⟨Fp.ofNat p a, Fp.ofNat p b⟩
-    match op, rest with
-    | "chunkscyc", [nbS, nsS, bs, ss] => do
-      let nb ← parseHex? nbS
-      let ns ← parseHex? nsS
-      let bpat : List (AffPt p E) ← pPts bs
-      let spat ← parseList? ss
-      let bases := cyc bpat nb
-      let ks := cyc spat ns
-      let m := sOut (msmChunks cfg bases ks)
-      if ns > nb then some (m ++ " @assert", if impl == "panic" then "note:msm_chunks-asserts-scalars<=bases" else "bad:want=panic")
-      else
-        let w := sPt (specSum (bases.drop (nb - ns)) ks)
-        some (m ++ " @steps" ++ toString (divCeil ns (2 ^ 20)),
-              if impl == w then (if nb = ns then "ok" else "note:msm_chunks-skips-leading-bases") else "bad:want=" ++ w)
-    | "chunked", [buf, bs, ss, os] => runAcc (E := E) cfg op buf bs ss os impl
-    | "chunkedws", [buf, bs, ss, os] => runAcc (E := E) cfg op buf bs ss os impl
-    | "hashmap", [buf, bs, ss, os] => runAcc (E := E) cfg op buf bs ss os impl
-    | _, [bs, ss] => runMsm (E := E) cfg op bs ss impl
-    | _, _ => none
+    runGroup (swIo p ⟨Fp.ofNat p a, Fp.ofNat p b⟩) ⟨r, n, ncS == "1"⟩ op rest impl
   | _, _ => none
 
 end Ark.DrvC05
